@@ -28,3 +28,19 @@ Definition ex_h : list call :=
 Definition ex_or : list ans :=
   [default_ans; default_ans; mk_ans false None None 3; mk_ans false None None 0].
 Definition ex_w : world := run ex_d 16 [] ex_or ex_h.
+
+(* same, the event record type has no payload (its size does not depend on the arguments) *)
+Definition ex_d2 : dstm :=
+  mk_dst LE true None []
+         (mk_sft 8 [("packet_size", u16); ("content_size", u16); ("timestamp_begin", u8);
+                    ("timestamp_end", u8); ("events_discarded", u8); ("packet_seq_num", u8)])
+         (Some (mk_sft 8 [("id", u8); ("timestamp", u8)])) None
+         [mk_ert 0 None None] true 8.
+Definition ex_h2 : list call :=
+  [COpen; CTrace 0 []; CTrace 0 []; CTrace 0 []; CTrace 0 []; CTrace 0 []; CClose; CTrace 0 []; CFini].
+
+(* counterexample configuration for C06 (c) without `pos_records`: an 8-bit packet context that
+   fills a 1-byte buffer and an event record type with an empty payload structure (0 bits) *)
+Definition ex_dz : dstm :=
+  mk_dst LE true None [] (mk_sft 8 [("packet_size", u8)]) None None
+         [mk_ert 0 None (Some (mk_sft 1 []))] false 8.
